@@ -293,11 +293,16 @@ class Lemma:
     # ---- running a real method ----------------------------------------------------------------------------------------
     def emit(self, gen):
         instrs, ret = drive(gen)
+        # the enclosing block ends: the Tracker finalises its checkpoints (DynamicValues render only afterwards)
+        self.finalize_headroom()
         lines = render(instrs)
         return instrs, lines, ret
 
     def finalize_headroom(self):
         """pop the harness checkpoint: the real Tracker now knows the maximum static size the method reached"""
+        if getattr(self, '_finalized', False):
+            return self.headroom._data
+        self._finalized = True
         self.cg.checkpoints.pop_level()
         Mx = self.headroom._data
         c = self.ctx
